@@ -109,6 +109,7 @@ func (this *NativeService) Invoke() (interface{}, error) {
 	}
 	result, err := service(this)
 	if err != nil {
+		this.PopContext()
 		return result, fmt.Errorf("[Invoke] Native serivce function execute error:%s", err)
 	}
 	this.PopContext()
